@@ -425,31 +425,36 @@ theorem C08_listing_helpers (env : Env) (path : Str) (maxDepth : Option Nat) (di
     (hinv : Spec.Inv s) (habs : absM env path s = (.ok a, s)) (hdir : isDirP s a = true)
     (hent : entriesOf s a = .ok (rootE, snap)) (hwf : SnapWf snap) (hsnap : SnapOf s a snap) :
     ∃ ps, listing env path maxDepth dirs files s = (.ok ps, s) ∧
-      -- in walk order ...
-      ps = (entriesSpec snap (listingOpts maxDepth dirs files) rootE).map (·.path) ∧
+      -- in walk order, links skipped by `dirs` / `files` / `all_dirs` / `all_files` (not by
+      -- `paths` / `all_paths`: both flags false) ...
+      ps = ((entriesSpec snap (listingOpts maxDepth dirs files) rootE).filter
+              (fun e => !((dirs || files) && e.link))).map (·.path) ∧
       -- ... which is the lexicographic order on component lists (name-sorted); distinct
       ps.Pairwise (fun p q => pathLt p q = true) ∧ ps.Nodup ∧
       -- the argument itself is excluded
       a ∉ ps ∧
       -- exactly the keys strictly below the directory, within the depth limit (depth 1 for
-      -- `some 1`), whose entry has the requested kind flag; in particular they exist
+      -- `some 1`), whose entry is a real file (`file ∧ ¬link`) / a real directory (`dir ∧ ¬link`);
+      -- all keys below for `paths` / `all_paths`; in particular they exist
       ∀ p, p ∈ ps ↔ ∃ t e, p = a ++ t ∧ t ≠ [] ∧ t.length ≤ depthCap maxDepth ∧
-        alLookup p s.entries = some e ∧ (files = true → e.file = true) ∧
-        (dirs = true → files = false → e.dir = true) :=
+        alLookup p s.entries = some e ∧ (files = true → e.file = true ∧ e.link = false) ∧
+        (dirs = true → files = false → e.dir = true ∧ e.link = false) :=
   Lemmas.Walk.listing_spec maxDepth dirs files hinv habs hdir hent hwf hsnap
 
-/-- agreement with `exists` / `is_dir` / `is_file` (= entry present / `dir && !link` /
-    `file && !link`) when no link lies below the directory; with links the kind flags of the link
-    entries are reported instead (the known `listing_includes_links` class) -/
+/-- agreement with `exists` / `is_dir` / `is_file` (= entry present / `dir && !link` = `isDirP` /
+    `file && !link`), in both directions and with NO hypothesis about links (the class
+    `listing_includes_links` is repaired): the listed paths are exactly the paths strictly below the
+    directory within the depth limit that exist and, for `files` / `all_files`, satisfy `is_file`, for
+    `dirs` / `all_dirs` satisfy `is_dir` -/
 theorem C08_listing_agrees_with_queries (env : Env) (path : Str) (maxDepth : Option Nat) (dirs files : Bool)
     (s : State) (a : FsPath) (rootE : Entry) (snap : Snap) (ps : List FsPath)
     (hinv : Spec.Inv s) (habs : absM env path s = (.ok a, s)) (hdir : isDirP s a = true)
     (hent : entriesOf s a = .ok (rootE, snap)) (hwf : SnapWf snap) (hsnap : SnapOf s a snap)
-    (hnolink : ∀ kv ∈ s.entries, a <+: kv.1 → kv.2.link = false)
     (h : listing env path maxDepth dirs files s = (.ok ps, s)) :
-    ∀ p ∈ ps, ∃ e, alLookup p s.entries = some e ∧
+    ∀ p, p ∈ ps ↔ ∃ t e, p = a ++ t ∧ t ≠ [] ∧ t.length ≤ depthCap maxDepth ∧
+      alLookup p s.entries = some e ∧
       (files = true → (e.file && !e.link) = true) ∧ (dirs = true → files = false → isDirP s p = true) :=
-  Lemmas.Walk.listing_agrees maxDepth dirs files hinv habs hdir hent hwf hsnap hnolink h
+  Lemmas.Walk.listing_agrees_iff maxDepth dirs files hinv habs hdir hent hwf hsnap h
 
 namespace C08w
 /-- `/`, `/a/`, `/a/b` -/
